@@ -39,6 +39,7 @@ func TestVerif_C01(t *testing.T) {
 		}
 		w.close()
 	}
+	c01Targeted(rec, rec.N(12, 400))
 }
 
 func liveDocs(c *kit.Corpus) int {
